@@ -8,7 +8,7 @@ From Coq Require Import ZArith List Bool.
 Import ListNotations.
 Require Import RV.Model.Rfc4791 RV.Model.Filter.
 Require Import RV.Proofs.C16Xt RV.Proofs.C16Loop RV.Proofs.C16Rows RV.Proofs.C16Tables RV.Proofs.C16Hull
-        RV.Proofs.C16Final RV.Proofs.C16GenEq.
+        RV.Proofs.C16Shortcut RV.Proofs.C16Fill RV.Proofs.C16FreeBusy RV.Proofs.C16Final RV.Proofs.C16GenEq.
 Require RV.Gen.C16Gen.
 Open Scope Z_scope.
 
@@ -97,6 +97,72 @@ Theorem C16_tables_legacy_F4_refuted :
               /\ ov (tr_start r) (tr_end r) (vtodo_calls_legacy t false J10) = false.
 Proof. exact legacy_F4_refuted. Qed.
 Print Assumptions C16_tables_legacy_F4_refuted.
+
+(* C16_shortcut: the answer of a report does not depend on the storage pre-selection.  For every list of filter
+   elements (prop-filters are opaque predicates), every list of items whose cached enclosing range is
+   find_time_range of their content: if evaluating EVERY item in full succeeds with result l, the report that goes
+   through simplify_prefilters / get_filtered (skip by tag and enclosing range, declared matched when simple)
+   returns exactly l.  Time ranges in the filters must be proper when bounded (RFC 4791 9.9); items of the F14
+   class are excluded. *)
+Theorem C16_shortcut : forall prop_match fuel_of filters items l,
+    Forall (item_ok fuel_of) items -> ranges_ok filters ->
+    reference prop_match fuel_of filters items = Some l ->
+    report prop_match fuel_of filters items = Some l.
+Proof. exact shortcut. Qed.
+Print Assumptions C16_shortcut.
+
+(* the two halves, per item *)
+Theorem C16_skipped_do_not_match : forall prop_match fuel_of it filters, item_ok fuel_of it -> ranges_ok filters ->
+    all_filters prop_match fuel_of it filters = Some true ->
+    let '(tag, s, e, _) := simplify_prefilters filters in
+    gf_skip tag (it_comp it) (fst (it_range it)) (snd (it_range it)) s e = false.
+Proof. exact skipped_do_not_match. Qed.
+Print Assumptions C16_skipped_do_not_match.
+
+Theorem C16_declared_matched_do_match : forall prop_match fuel_of it filters tag s e, item_ok fuel_of it -> ranges_ok filters ->
+    simplify_prefilters filters = (tag, s, e, true) ->
+    gf_skip tag (it_comp it) (fst (it_range it)) (snd (it_range it)) s e = false ->
+    gf_matched true (fst (it_range it)) (snd (it_range it)) s e = true ->
+    all_filters prop_match fuel_of it filters = Some true.
+Proof. exact declared_matched_do_match. Qed.
+Print Assumptions C16_declared_matched_do_match.
+
+(* adding an always-true condition -- a prop-filter that matches everything appended to the component's
+   comp-filter, or a second identical comp-filter -- never changes the result (the first makes the filter
+   "not simple", i.e. switches the shortcut's declared-matched logic off) *)
+Theorem C16_always_true : forall prop_match fuel_of p, (forall it, prop_match p it = true) ->
+    forall t r rest items l,
+      Forall (item_ok fuel_of) items ->
+      (forall r', In (ETimeRange r') (ETimeRange r :: rest) -> range_ok r') ->
+      reference prop_match fuel_of (q_plain t r rest) items = Some l ->
+      report prop_match fuel_of (q_plain t r rest) items = Some l
+      /\ report prop_match fuel_of (q_prop p t r rest) items = Some l
+      /\ report prop_match fuel_of (q_twice t r rest) items = Some l.
+Proof. exact always_true. Qed.
+Print Assumptions C16_always_true.
+
+(* C16_freebusy, expansion: for a well-formed VEVENT and a range with an end, time_range_fill terminates with the
+   explicit fuel and lists only occurrences that overlap (RFC row), each as (start, start + length); below the cap
+   (fewer than n results, or n = 0: no cap) it lists EVERY overlapping occurrence. *)
+Theorem C16_freebusy : forall ev r z n fuel,
+    wf_vevent ev -> snd r = Some z -> (match_fuel (OEvent ev) r <= fuel)%nat ->
+    exists L, time_range_fill fuel (OEvent ev) r n = Some L
+      /\ (forall x, In x L -> exists D, occurs (ev_start ev) (ev_rec ev) D
+                                         /\ vevent_row ev D (tr_start r) (tr_end r) = true
+                                         /\ x = (Fin D, Fin (D + vevent_len ev)))
+      /\ (Z.of_nat (length L) < n \/ n <= 0 ->
+          forall D, occurs (ev_start ev) (ev_rec ev) D -> vevent_row ev D (tr_start r) (tr_end r) = true ->
+                    In (Fin D, Fin (D + vevent_len ev)) L).
+Proof. exact fill_spec. Qed.
+Print Assumptions C16_freebusy.
+
+(* C16_freebusy, retrieval: free_busy_report's pre-selection gives the same periods (and the same failures) as
+   testing every item of the collection in full *)
+Theorem C16_freebusy_shortcut : forall fuel_of maxo r items,
+    Forall (fun fi => item_ok fuel_of (fb_item fi)) items -> range_ok r ->
+    free_busy fuel_of maxo r items = fb_loop fuel_of maxo r (map (fun fi => (fi, false)) items).
+Proof. exact freebusy_shortcut. Qed.
+Print Assumptions C16_freebusy_shortcut.
 
 (* Tie T: the two expressions of get_filtered, regenerated from the source, are the modelled ones. *)
 Theorem C16_get_filtered_expressions : forall tag comp simple istart iend start end_,
